@@ -118,6 +118,17 @@ def build(case: dict, opts=None, poison: bool = False):
         if entry == "flat_to_file":
             stmts = [T.st_to_generic(s) for s in flat]
             ser.flat_stream_to_file((s for s in stmts), out, opts)
+        elif case.get("window"):
+            # the caller's generator re-loads ONE sink object for every group and yields it again
+            def windows():
+                sink = DR.g_sink([], binds)
+                for g in groups:
+                    blob = io.BytesIO()
+                    DR.g_sink(g, binds).serialize(blob)
+                    sink.parse(io.BytesIO(blob.getvalue()))
+                    yield sink
+
+            ser.grouped_stream_to_file(windows(), out, options=opts)
         else:
             ser.grouped_stream_to_file((DR.g_sink(g, binds) for g in groups), out, options=opts)
         return out.getvalue(), True, None
@@ -137,6 +148,22 @@ def build(case: dict, opts=None, poison: bool = False):
     if entry == "flat_to_file":
         stmts = [T.st_to_rdflib(s) for s in flat]
         ser.flat_stream_to_file((s for s in stmts), out, opts)
+        return out.getvalue(), True, None
+    if entry == "grouped_to_file" and case.get("window"):
+        # one rdflib container object, emptied and filled again for every group
+        def windows():
+            box = DR.r_graph(groups[0], binds, empty, order)
+            for i, g in enumerate(groups):
+                if i:
+                    box.remove((None, None, None, None) if arity == 4 else (None, None, None))
+                    for st in g:
+                        terms = [T.to_rdflib(t) for t in st]
+                        if arity == 4:
+                            terms[3] = box.get_context(terms[3])
+                        box.add(tuple(terms))
+                yield box
+
+        ser.grouped_stream_to_file(windows(), out, options=opts)
         return out.getvalue(), True, None
     if entry == "grouped_to_file":
         ser.grouped_stream_to_file((DR.r_graph(g, binds, empty, order) for g in groups), out, options=opts)
@@ -291,6 +318,10 @@ def all_points(frame_sizes) -> list:
                                 if flow != "inferred" and fs == 2:
                                     pts.append((api, entry, cls, lt, dl, fs, flow, "five",
                                                 "flow"))
+                                if entry == "grouped_to_file" and flow in (
+                                        "inferred", "GraphsFrameFlow", "DatasetsFrameFlow"):
+                                    pts.append((api, entry, cls, lt, dl, fs, flow,
+                                                "three_groups", "window"))
                                 if flow in ("inferred", "BoundedFrameFlow") and entry not in (
                                         "stream_frames_gen", "flat_to_file"):
                                     # containers with 12 namespace bindings, declarations on
@@ -327,6 +358,7 @@ def shard(job) -> dict:
         case = {"api": api, "entry": entry, "cls": cls, "logical": lt, "delimited": dl,
                 "frame_size": fs, "flow": flow, "input": inp, "reuse": reuse is True,
                 "reuse_flow": reuse == "flow", "bindings": reuse == "bindings",
+                "window": reuse == "window",
                 "empty_graphs": reuse if str(reuse).startswith("empty-") else False}
         acc.evals += 1
         outcome, info = run_case(case)
